@@ -19,7 +19,10 @@ CONSTANTS N,               \* maximal length of s
           RewritesInvalid, EmitCases
 
 Classes == {"a", "MB", "COMB", "BAD"}
+\* trails: ASCII with a multi-byte character at every third place, and trails that are mostly
+\* multi-byte (their length in bytes is well above their length in characters)
 Trails  == { [i \in 1..n |-> IF i % 3 = 0 THEN "MB" ELSE "."] : n \in 0..MaxTrail }
+           \cup { <<"MB">>, <<"CJK">>, <<"MB", "MB">>, <<"CJK", ".">>, <<".", "CJK", "MB">> }
 
 VARIABLES s, size, trail, stage
 vars == <<s, size, trail, stage>>
